@@ -16,7 +16,8 @@ set.symmetric_difference_update(self, coll)     setSymDiff
 x in self      (set.__contains__)               OSet.has
 OrderedSet.__init__(d)                          OSet.init
 _from_list(new_list)                            OSet.fromList
-copy/add/remove/pop/insert/discard/clear        OSet.copy … OSet.clear
+copy, __copy__ (= self.copy(), F19 fix)         OSet.copy
+add/remove/pop/insert/discard/clear             OSet.add … OSet.clear
 __getitem__                                     OSet.getitem
 update/__ior__, union/__or__/__add__            OSet.update, OSet.union
 intersection/__and__, difference/__sub__        OSet.intersection, OSet.difference
